@@ -85,6 +85,7 @@ var (
 	c33W     = common.HexToAddress("0x3300000000000000000000000000000000003310") // withdrawal recipient (absent)
 	c33Extra = common.HexToAddress("0x9900000000000000000000000000000000009911") // never touched: "extra account" edit
 	c33DLG2  = common.HexToAddress("0xd200000000000000000000000000000000000d13") // second delegation target (adds twice the calldata word)
+	c33DLG3  = common.HexToAddress("0xd300000000000000000000000000000000000d14") // the target F is delegated to in genesis (kept apart from DLG so that no code blob created in a block already exists in the parent state)
 	c33BH    = common.HexToAddress("0xb100000000000000000000000000000000000b12") // stores and logs BLOCKHASH of ancestors N-1, N-3, N-6, N-8 and of N itself
 )
 
@@ -159,7 +160,7 @@ func c33NewWorld() *c33World {
 	getter := program.New().Push(0).Op(vm.SLOAD).Push(0).Op(vm.MSTORE).Return(0, 32).Bytes()
 	ctr := c33Branch(getter, c33Adder())
 
-	initK := program.New().Sstore(5, 9).ReturnViaCodeCopy(c33Adder()).Bytes()
+	initK := program.New().Sstore(5, 9).ReturnViaCodeCopy(append(c33Adder(), byte(vm.STOP))).Bytes() // runtime code that exists nowhere in the parent state
 	w.k = crypto.CreateAddress2(c33FAC, common.BigToHash(big.NewInt(1)), crypto.Keccak256(initK))
 	fac := program.New().Create2(initK, 1).Push(0).Op(vm.MSTORE).Push(32).Push(0).Op(vm.LOG0, vm.STOP).Bytes()
 
@@ -225,7 +226,8 @@ func c33NewWorld() *c33World {
 		c33BH:         {Code: bh.Bytes(), Balance: common.Big0, Nonce: 1},
 		c33DLG2:       {Code: dlg2, Balance: common.Big0, Nonce: 1},
 		// F is an externally owned account whose delegation to DLG exists before the block
-		w.addrs[c33F]: {Code: types.AddressToDelegation(c33DLG), Balance: common.Big0},
+		w.addrs[c33F]: {Code: types.AddressToDelegation(c33DLG3), Balance: common.Big0},
+		c33DLG3:       {Code: append(c33Adder(), byte(vm.STOP), byte(vm.STOP)), Balance: common.Big0, Nonce: 1},
 	})
 	w.env.gspec.GasLimit = 30_000_000
 	if w.addrs[c33A] != w.env.from {
@@ -311,8 +313,22 @@ func c33NewWorld() *c33World {
 		// two authorizations in one transaction (away and back to the old target), and a plain call of it
 		redelegate("REDELEG_F_B", c33B, 3, c33DLG2),
 		redelegate("CLEAR_F_C", c33C, 4, common.Address{}),
-		redelegate("REDELEG_F_TWICE_A", c33A, 5, c33DLG2, c33DLG),
+		redelegate("REDELEG_F_TWICE_A", c33A, 5, c33DLG2, c33DLG3),
 		call("CALLF_A", c33A, w.addrs[c33F], 0, c33Word(1)),
+	}
+	// Code blobs that come into existence inside the explored blocks must not already exist in the
+	// parent state: the code database is keyed by hash, so an identical blob in genesis would make a
+	// reader that ignores the block's own code changes look correct.
+	inGenesis := map[string]bool{}
+	for _, acc := range w.env.gspec.Alloc {
+		inGenesis[string(acc.Code)] = true
+	}
+	for name, blob := range map[string][]byte{
+		"runtime code of K": append(c33Adder(), byte(vm.STOP)), "delegation of E": types.AddressToDelegation(c33DLG), "re-delegation of F": types.AddressToDelegation(c33DLG2),
+	} {
+		if inGenesis[string(blob)] {
+			panic("c33: " + name + " already exists as code in genesis")
+		}
 	}
 	// the ancestors: empty blocks, generated once
 	_, w.prefix, _ = GenerateChainWithGenesis(w.env.gspec, w.engine, c33Ancestors, func(int, *BlockGen) {})
